@@ -7,8 +7,9 @@ import zlib
 
 
 # ---------------------------------------------------------------------------------------------------------------------
-# exceptions raised by generated user functions (never IndexError / KeyError / StopIteration: BatchDataset interprets
-# IndexError from its input as "end of data")
+# exceptions raised by generated user functions: own classes, FilterException and KeyError (a missing field in a user
+# function is the everyday case). Never IndexError / StopIteration: BatchDataset interprets IndexError from its input
+# as "end of data" and a StopIteration inside a generator is PEP 479 territory (C06 covers it separately).
 
 
 class VErrA(Exception):
@@ -27,13 +28,111 @@ class VBase(BaseException):
     pass
 
 
+class VFalsy(Exception):
+    """An exception whose instances are falsy (a container-like error, e.g. a collection of validation errors that
+    defines __len__): `if error:` is not a test for "an error happened"."""
+
+    def __bool__(self):
+        return False
+
+    def __len__(self):
+        return 0
+
+
 def exc_class(name):
     if name == 'FilterException':
         import lazy_dataset
         return lazy_dataset.FilterException
-    return {'VErrA': VErrA, 'VErrB': VErrB, 'VErrC': VErrC, 'VBase': VBase, 'Exception': Exception,
+    return {'VErrA': VErrA, 'VErrB': VErrB, 'VErrC': VErrC, 'VBase': VBase, 'VFalsy': VFalsy, 'Exception': Exception,
             'ValueError': ValueError, 'LookupError': LookupError, 'KeyError': KeyError,
             'IndexError': IndexError}[name]
+
+
+# ---------------------------------------------------------------------------------------------------------------------
+# example values a pipeline has to hand through without looking at them (C04-C07 workloads)
+
+
+class Touchy:
+    """An example that refuses ==, bool() and len() - what a numpy array with several elements does for bool(), taken
+    to its conclusion. Identified by .tag."""
+
+    def __init__(self, tag):
+        self.tag = tag
+
+    def __eq__(self, other):
+        raise TypeError('an example was compared with ==')
+
+    __hash__ = None
+
+    def __bool__(self):
+        raise TypeError('the truth value of an example was taken')
+
+    def __len__(self):
+        raise TypeError('len() of an example was taken')
+
+    def __reduce__(self):
+        return Touchy, (self.tag,)
+
+    def __repr__(self):
+        return f'Touchy({self.tag!r})'
+
+
+class Falsy:
+    """A falsy, empty-looking example (like an empty batch): bool() is False, len() is 0."""
+
+    def __init__(self, tag):
+        self.tag = tag
+
+    def __bool__(self):
+        return False
+
+    def __len__(self):
+        return 0
+
+    def __reduce__(self):
+        return Falsy, (self.tag,)
+
+    def __repr__(self):
+        return f'Falsy({self.tag!r})'
+
+
+VALUE_KINDS = ('tuple', 'ndarray', 'exc', 'touchy', 'falsy', 'mixed')
+
+
+def value_of(kind, tag):
+    """The example of value kind `kind` that carries the plain tuple `tag`."""
+    if kind in (None, 'tuple'):
+        return tag
+    if kind == 'mixed':
+        kind = VALUE_KINDS[1 + tag[1] % 4]
+    if kind == 'ndarray':
+        import numpy as np
+        return np.array([7] + [x for x in tag if isinstance(x, int)])  # >= 2 elements: bool() / == are ambiguous
+    if kind == 'exc':
+        return ValueError(*tag)  # an exception OBJECT as an ordinary example value (a collected error, say)
+    if kind == 'touchy':
+        return Touchy(tag)
+    if kind == 'falsy':
+        return Falsy(tag)
+    raise ValueError(kind)
+
+
+def token(v):
+    """A comparable, printable stand-in of a delivered example (see value_of)."""
+    import numpy as np
+    if isinstance(v, np.ndarray):
+        return ('nd', v.dtype.kind, tuple(v.tolist()))
+    if isinstance(v, BaseException):
+        return ('exc-object', type(v).__name__, tuple(v.args))
+    if isinstance(v, Touchy):
+        return ('touchy', v.tag)
+    if isinstance(v, Falsy):
+        return ('falsy', v.tag)
+    if type(v) is tuple:
+        return tuple(token(x) for x in v)
+    if type(v) is list:
+        return [token(x) for x in v]
+    return v
 
 
 def exc_spec(spec):
@@ -190,7 +289,7 @@ def src_values(node):
 
 
 KEY_ALPHABET = ['a', 'b', 'c', 'd', 'e', 'f', 'g', 'h']
-ABSENT_KEYS = ['zz', '', 'A', 'aa', 'b ']
+ABSENT_KEYS = ['zz', '', 'A', 'aa', 'b ', 'a\x00', 'c\x00\x00']
 
 
 # ---------------------------------------------------------------------------------------------------------------------
